@@ -37,8 +37,16 @@ type PairVal struct {
 	hasB bool
 }
 
+type rangeBound struct {
+	key       Value
+	inclusive bool
+}
+
 type RangeVal struct {
-	prefix Value
+	prefix Value // full-key prefix on the first component of a pair key (nil = none)
+	start  *rangeBound
+	end    *rangeBound
+	desc   bool
 }
 
 type CtxVal struct {
@@ -125,6 +133,50 @@ func (e *Exec) keyCmp(a, b Value) int {
 		return strings.Compare(x, b.(string))
 	}
 	panic(abortRun{kind: "unsupported", msg: "collection key of kind " + describe(a)})
+}
+
+// cmpToBound compares a stored key with a range bound; a pair bound without a
+// second component (collections.PairPrefix) compares on the first component only.
+func (e *Exec) cmpToBound(key, bound Value) int {
+	if bp, ok := bound.(*PairVal); ok && !bp.hasB {
+		kp, isPair := key.(*PairVal)
+		if !isPair {
+			panic(abortRun{kind: "error", msg: "pair prefix bound on a non-pair key"})
+		}
+		return e.keyCmp(kp.a, bp.a)
+	}
+	if kp, ok := key.(*PairVal); ok {
+		if _, boundIsPair := bound.(*PairVal); !boundIsPair {
+			// PairRange bound on the second component (within a prefix)
+			return e.keyCmp(kp.b, bound)
+		}
+	}
+	return e.keyCmp(key, bound)
+}
+
+func (e *Exec) inRange(rv *RangeVal, key Value) bool {
+	if rv.prefix != nil {
+		pk, isPair := key.(*PairVal)
+		if !isPair {
+			panic(abortRun{kind: "error", msg: "prefixed range over non-pair key"})
+		}
+		if !e.branch(e.valEq(pk.a, rv.prefix)) {
+			return false
+		}
+	}
+	if rv.start != nil {
+		c := e.cmpToBound(key, rv.start.key)
+		if c < 0 || (c == 0 && !rv.start.inclusive) {
+			return false
+		}
+	}
+	if rv.end != nil {
+		c := e.cmpToBound(key, rv.end.key)
+		if c > 0 || (c == 0 && !rv.end.inclusive) {
+			return false
+		}
+	}
+	return true
 }
 
 func (e *Exec) collFind(c *Coll, key Value) (int, bool) {
@@ -382,29 +434,28 @@ func init() {
 	})
 	reg(MP+"Walk", func(e *Exec, fn *ssa.Function, a []Value) Value {
 		c := e.coll(a[0], "Map.Walk")
-		var prefix Value
+		var rv *RangeVal
 		if itf, ok := a[2].(Iface); ok && itf.t != nil {
-			rv, isR := itf.v.(*RangeVal)
+			r, isR := itf.v.(*RangeVal)
 			if !isR {
 				if p, isP := itf.v.(Ptr); isP && p != nil {
-					rv, isR = (*p).(*RangeVal)
+					r, isR = (*p).(*RangeVal)
 				}
 			}
 			if !isR {
 				panic(abortRun{kind: "unsupported", msg: "Map.Walk with ranger " + describe(itf.v)})
 			}
-			prefix = rv.prefix
+			rv = r
 		}
 		snapshot := append([]collEntry(nil), c.entries...)
+		if rv != nil && rv.desc {
+			for i, j := 0, len(snapshot)-1; i < j; i, j = i+1, j-1 {
+				snapshot[i], snapshot[j] = snapshot[j], snapshot[i]
+			}
+		}
 		for _, en := range snapshot {
-			if prefix != nil {
-				pk, isPair := en.key.(*PairVal)
-				if !isPair {
-					panic(abortRun{kind: "error", msg: "prefixed range over non-pair key"})
-				}
-				if !e.branch(e.valEq(pk.a, prefix)) {
-					continue
-				}
+			if rv != nil && !e.inRange(rv, en.key) {
+				continue
 			}
 			res := e.call(a[3], []Value{deepCopy(en.key, map[Ptr]Ptr{}), deepCopy(en.val, map[Ptr]Ptr{})}, nil).(Tuple)
 			if errI := res[1].(Iface); errI.t != nil {
@@ -416,6 +467,55 @@ func init() {
 		}
 		return Iface{}
 	})
+	// generic ranges: new(collections.Range[K]).Prefix/StartInclusive/... and pair prefixes
+	reg(C+"PairPrefix", func(e *Exec, fn *ssa.Function, a []Value) Value {
+		return &PairVal{a: a[0], hasB: false}
+	})
+	rangeOf := func(e *Exec, recv Value) (*RangeVal, Ptr) {
+		p, ok := recv.(Ptr)
+		if !ok || p == nil {
+			panic(abortRun{kind: "unsupported", msg: "range builder on " + describe(recv)})
+		}
+		if r, isR := (*p).(*RangeVal); isR {
+			return r, p
+		}
+		r := &RangeVal{}
+		*p = r
+		return r, p
+	}
+	for _, recvT := range []string{"(*" + C + "Range[K]).", "(*" + C + "PairRange[K1, K2])."} {
+		recvT := recvT
+		reg(recvT+"Prefix", func(e *Exec, fn *ssa.Function, a []Value) Value {
+			r, p := rangeOf(e, a[0])
+			r.start, r.end = &rangeBound{key: a[1], inclusive: true}, &rangeBound{key: a[1], inclusive: true}
+			return p
+		})
+		reg(recvT+"StartInclusive", func(e *Exec, fn *ssa.Function, a []Value) Value {
+			r, p := rangeOf(e, a[0])
+			r.start = &rangeBound{key: a[1], inclusive: true}
+			return p
+		})
+		reg(recvT+"StartExclusive", func(e *Exec, fn *ssa.Function, a []Value) Value {
+			r, p := rangeOf(e, a[0])
+			r.start = &rangeBound{key: a[1], inclusive: false}
+			return p
+		})
+		reg(recvT+"EndInclusive", func(e *Exec, fn *ssa.Function, a []Value) Value {
+			r, p := rangeOf(e, a[0])
+			r.end = &rangeBound{key: a[1], inclusive: true}
+			return p
+		})
+		reg(recvT+"EndExclusive", func(e *Exec, fn *ssa.Function, a []Value) Value {
+			r, p := rangeOf(e, a[0])
+			r.end = &rangeBound{key: a[1], inclusive: false}
+			return p
+		})
+		reg(recvT+"Descending", func(e *Exec, fn *ssa.Function, a []Value) Value {
+			r, p := rangeOf(e, a[0])
+			r.desc = true
+			return p
+		})
+	}
 	const IT = "(" + C + "Item[V])."
 	reg(IT+"Get", func(e *Exec, fn *ssa.Function, a []Value) Value {
 		c := e.coll(a[0], "Item.Get")
